@@ -136,6 +136,37 @@ theorem resetTo_position (hc : CfgOK cfg) (h : GeomInv cfg s) {cp : Checkpoint} 
 example : CheckpointOK exCfg exState { cur := .chunk 0, addr := 0x10000 + 32 + 3 } :=
   ⟨exChunk, rfl, by decide, by decide⟩
 
+/-- `scoped_aligned::<N>` exit: the guard was created by the OUTER handle, so `reset_to` runs with the
+    outer minimum alignment `outer` while the arena is still in the inner region (minimum alignment
+    `s.minAlign`, possibly lower).  It does not fault, re-establishes the invariant for `outer`, and the
+    position is exactly the entry position (the checkpoint was taken by the outer handle, hence
+    `outer`-aligned). -/
+theorem resetTo_outer (hc : CfgOK cfg) (h : GeomInv cfg s) {outer : Nat} (ho : MinAlignOK outer) {cp : Checkpoint}
+    (hcp : CheckpointOK cfg s cp) :
+    ∃ s', resetTo cfg { s with minAlign := outer } cp = .ok s' ∧ GeomInv cfg s' ∧ s'.minAlign = outer ∧
+      SameShape s s' ∧
+      (∀ i, cp.cur = .chunk i → s'.cur = .chunk i ∧ outer ∣ curPos cfg s' ∧
+        (outer ∣ cp.addr → curPos cfg s' = cp.addr)) := by
+  obtain ⟨s1, e1, e2, e3, e4, e5, e6⟩ := resetTo_ok_min hc h ho hcp
+  refine ⟨s1, e1, e2, e4, e3, ?_⟩
+  intro i hi
+  obtain ⟨g1, g2⟩ := e6 i hi
+  refine ⟨g1, by rw [g2]; exact alignPos_dvd _ _ _, ?_⟩
+  intro hd
+  rw [g2, alignPos_eq_self ho.pos hd]
+
+/-- leaving a raising `aligned::<N>` region (or any switch to a LOWER minimum alignment) needs no
+    re-alignment: the position is already a multiple of the lower alignment -/
+theorem lower_minAlign (h : GeomInv cfg s) {m : Nat} (hm : MinAlignOK m) (hle : m ≤ s.minAlign) :
+    GeomInv cfg { s with minAlign := m } := by
+  apply h.withMinAlign hm
+  intro i c hi hci
+  obtain ⟨c', hc', hd⟩ := h.cur i hi
+  rw [hci] at hc'; cases hc'
+  exact Nat.dvd_trans (hm.p2.dvd_of_le h.minAlign.p2 hle) hd
+
+example : MinAlignOK 2 ∧ 2 ≤ exState.minAlign := ⟨Or.inr (Or.inl rfl), by decide⟩
+
 /-! ## every allocation keeps the position aligned -/
 
 /-- after `RawChunk::alloc` the position is a multiple of the minimum alignment in force -/
